@@ -53,14 +53,14 @@ def gen(rng, tier, ctx):
             op = "create"
         if op == "create":
             steps.append(["create", rng.choice(["Person", "Employee", "Manager", "Org", "Dept", "Chief", "Volunteer", "WorkingStudent", "VOrg", "VOrg", "VPerson",
-                                                "SeasonalA", "SeasonalB"])])
+                                                "SeasonalA", "SeasonalB", "Row", "Lenient"])])
         elif op in ("drop",):
             steps.append(["drop", rng.randrange(1000)])
         elif op == "relate":
             steps.append(["relate", rng.choice(["works_for", "member_of", "members", "sub_org_of"]), rng.randrange(1000), rng.randrange(1000)])
         elif op in ("q_new", "q_build", "q_build_attr"):
             steps.append([op, rng.choice(["Person", "Employee", "Manager", "Org", "Dept", "Chief", "Volunteer", "WorkingStudent", "VOrg", "VPerson",
-                                          "SeasonalA"])])
+                                          "SeasonalA", "Row", "Lenient"])])
         elif op == "q_pair":
             t = rng.choice(["Person", "Org", "Employee", "Dept"])
             steps.append([op, t, t if rng.random() < 0.7 else rng.choice(["Person", "Org", "Employee", "Dept", "Volunteer"])])
@@ -94,6 +94,9 @@ def witnesses():
                                                         ["q_new", "Volunteer"]]},
             "late-branch-variable-keeps-first-domain": {"steps": [
         ["create", "Person"], ["create", "Org"], ["q_rule", "Person", "Org"], ["q_rule_eval", 0], ["create", "Org"], ["q_rule_eval", 0]]},
+            "instances-merged-by-an-attribute-called-_id_": {"steps": [
+        ["create", "Row"], ["create", "Row"], ["create", "Lenient"], ["create", "Lenient"], ["q_new", "Row"], ["q_new", "Lenient"],
+        ["q_build_attr", "Row"]]},
             "domainless-query-reevaluation-stale": {"steps": [
         ["create", "Person"], ["q_build", "Person"], ["q_eval", 0], ["create", "Person"], ["q_eval", 0]]}}
 
